@@ -630,6 +630,69 @@ def check_copy(rep: Report, ix):
     rep.floor("(class, copy, __init__) triples analysed", n, 15)
 
 
+
+def check_axis_spellings(rep: Report, ix):
+    """get_boundary_axis interpreted (pdelint/npsem.py) on every documented spelling of periodic / anti-periodic axis
+    conditions: plain string, pair of equal strings, dictionary {"type": ...}, auto_periodic_* on a periodic axis: the
+    result is a BoundaryPeriodic whose flip_sign is set exactly for the anti-periodic spellings (ghost = -opposite cell)"""
+    from .. import npsem as ns
+
+    f = ix.func(AXIS_FILE, "get_boundary_axis")
+    rep.saw("parsing functions", f.ref)
+    m = f.module
+    made = []
+
+    def periodic_axis(grid, axis, rank=0, flip_sign=False, **kw):
+        st = ns.Stub("BoundaryPeriodic", periodic=True, flip_sign=flip_sign, axis=axis, rank=rank, __kind__=("BoundaryPeriodic", "BoundaryAxisBase"))
+        made.append(st)
+        return st
+
+    pair = ns.Stub("BoundaryPair", from_data=lambda grid, axis, data, rank=0: ns.Stub("pair", periodic=False, axis=axis, __kind__=("BoundaryPair", "BoundaryAxisBase")))
+    base_vars = {n: ns.Opaque(n) for n in list(m.imports) + list(m.functions) + list(m.classes) + list(m.assigns) if "." not in n}
+    base_vars.update(
+        {
+            "collections": ns.Stub("collections", abc=ns.Stub("abc", Sequence=ns.KindRef("Sequence"), Mapping=ns.KindRef("Mapping"))),
+            "BoundaryPeriodic": ns.KindRef("BoundaryPeriodic", ("BoundaryAxisBase",), periodic_axis),
+            "BoundaryPair": pair,
+            "BoundaryAxisBase": ns.KindRef("BoundaryAxisBase"),
+        }
+    )
+    cases = [
+        ("periodic", False),
+        ("anti-periodic", True),
+        ({"type": "periodic"}, False),
+        ({"type": "anti-periodic"}, True),
+        (("periodic", "periodic"), False),
+        (("anti-periodic", "anti-periodic"), True),
+        (["anti-periodic", "anti-periodic"], True),
+        ("auto_periodic_neumann", False),
+        ("auto_periodic_dirichlet", False),
+    ]
+    for data, flip in cases:
+        grid = ns.Stub("grid", periodic=[True], axes=["x"], num_axes=1, __kind__=("GridBase",))
+        sem = ns.NpSem(where=f.ref)
+        tag = f"axis-spelling:{data!r}"
+        try:
+            res = sem.run_function(f.node, {}, (grid, 0, data), {"rank": 0}, outer=ns.Scope(base_vars))
+        except ns.Raised as e:
+            rep.oblige(tag, False, e.what)
+            rep.violation("C02.spec-parsing", f"{f.ref}::{data!r}", f"get_boundary_axis raises `{e.what}` for the axis condition {data!r} on a periodic axis")
+            continue
+        except ns.Unsupported as e:
+            raise AnalysisError(f"{f.ref} on {data!r}: {e}") from e
+        ok = isinstance(res, ns.Stub) and res._attrs.get("__kind__", ("",))[0] == "BoundaryPeriodic" and bool(res._attrs.get("flip_sign")) == flip
+        rep.oblige(tag + f" -> BoundaryPeriodic(flip_sign={flip})", ok, repr(res) + (f" flip_sign={res._attrs.get('flip_sign')}" if isinstance(res, ns.Stub) else ""))
+        if not ok:
+            got = f"flip_sign={res._attrs.get('flip_sign')}" if isinstance(res, ns.Stub) else repr(res)
+            rep.violation(
+                "C02.spec-parsing",
+                f"{f.ref}::{'anti-periodic' if flip else 'periodic'}-spelling",
+                f"the axis condition {data!r} gives {res!r} with {got}; documented: a periodic axis condition with flip_sign={flip} (virtual point = {'-' if flip else '+'} opposite cell)",
+                line=f.node.lineno,
+            )
+    rep.floor("spellings of (anti-)periodic axis conditions", len(cases), 9)
+
+
 def check(tier: str) -> Report:
     rep = Report("C02", tier, "proof", "ast->sympy extraction of ghost-cell formulas (interpreted and compiled setters) checked against the defining equations; index tables on symbolic shapes")
     rep.explanation = (
@@ -749,6 +812,7 @@ def check(tier: str) -> Report:
             )
     check_parsing(rep, ix)
     check_copy(rep, ix)
+    check_axis_spellings(rep, ix)
     rep.assumptions += [
         "every axis has at least two cells (the code raises otherwise)",
         "values of user expressions/callables are uninterpreted symbols (their meaning is property C11)",
